@@ -40,7 +40,7 @@ func (c07) Components() map[string]string {
 
 func (c07) Budget(tier string) int {
 	if tier == "thorough" {
-		return 24000
+		return 120000
 	}
 	return 640
 }
@@ -240,6 +240,8 @@ func (p c07) Run(sc *Scenario) *Result {
 		return res // outside C07
 	}
 	S := ref.ctx.Exec
+	res.Mix(ref.ctx.Transcript()...)
+	res.Mix(outcome(ref.err), fmt.Sprint(S, ref.steps))
 	_, long := isCancelErr(ref.err)
 	if long {
 		res.Count("nonterminating_programs", 1)
